@@ -23,6 +23,7 @@ def deep_round_factory(tol):
     for i,j in enumerate(args):
       if isinstance(j, float): _args[i] = round(j, tol) # don't round int
       elif isinstance(j, (str, unicode, type(BaseException()))): continue
+      elif hasattr(j, '__next__'): continue # don't consume an iterator
       elif isinstance(j, dict): # keys need not be strings
         _args[i] = dict(zip(j.keys(), deep_round(*j.values())[0]))
       elif isiterable(j): #XXX: fails on the above, so don't iterate them
@@ -32,6 +33,7 @@ def deep_round_factory(tol):
     for i,j in kwds.items():
       if isinstance(j, float): _kwds[i] = round(j, tol)
       elif isinstance(j, (str, unicode, type(BaseException()))): continue
+      elif hasattr(j, '__next__'): continue # don't consume an iterator
       elif isinstance(j, dict): # keys need not be strings
         _kwds[i] = dict(zip(j.keys(), deep_round(*j.values())[0]))
       elif isiterable(j): #XXX: fails on the above, so don't iterate them
@@ -151,6 +153,7 @@ def shallow_round_factory(tol):
   def around(iterable, tol):
     if isinstance(iterable, float): return round(iterable, tol)
     if isinstance(iterable, (str, bytes)): return iterable # don't split text
+    if hasattr(iterable, '__next__'): return iterable # don't consume an iterator
     from klepto.tools import isiterable
     if not isiterable(iterable): return iterable
     itype = type(iterable)
